@@ -382,9 +382,7 @@ impl Evaluator {
             (LuaValue::True, LuaValue::True)
             | (LuaValue::False, LuaValue::False)
             | (LuaValue::Nil, LuaValue::Nil) => LuaValue::True,
-            (LuaValue::Number(a), LuaValue::Number(b)) => {
-                LuaValue::from((a - b).abs() < f64::EPSILON)
-            }
+            (LuaValue::Number(a), LuaValue::Number(b)) => LuaValue::from(a == b),
             (LuaValue::String(a), LuaValue::String(b)) => LuaValue::from(a == b),
             _ => LuaValue::False,
         }
